@@ -118,7 +118,7 @@ def gen_options(cls: str, rng) -> Dict[str, Any]:
 
 
 def gen_cases(tier: str, seed: int) -> List[Dict[str, Any]]:
-    n = 1500 if tier == "quick" else 30000
+    n = 1500 if tier == "quick" else 120000
     cases: List[Dict[str, Any]] = []
     for i in range(n):
         rng = rng_for(seed, PROPERTY, i)
